@@ -42,6 +42,7 @@ class Metric7(optrun.Metric):
         super().__init__(inner.kind, inner.faults, inner.log, inner.primary)
         self.base_at = base_at
         self.fired = fired
+        self.ok_ids = set()      # 'only_initial': kind - every graph fails except the supplied initial graphs
 
     def __call__(self, g):
         if self.base_at is not None and self.calls == self.base_at:
@@ -49,6 +50,13 @@ class Metric7(optrun.Metric):
             self.calls += 1
             self.fired.append('objective_base')
             raise InjectedBase('injected non-Exception failure in the objective')
+        oi = self.faults.get('only_initial')
+        if oi and g.descriptive_id not in self.ok_ids:
+            self.log.append({'i': self.calls, 'id': g.descriptive_id, 'fault': oi})
+            self.calls += 1
+            if oi == 'raise':
+                raise RuntimeError('injected metric failure')
+            return None if oi == 'none' else float('nan')
         only = self.faults.get('only_size')
         if only and len(g.nodes) != only[0]:
             self.log.append({'i': self.calls, 'id': g.descriptive_id, 'fault': only[1]})
@@ -187,9 +195,12 @@ def run_case(case):
                 opt, objective, gen = optrun.make_optimiser(cfg, log, history_dir)
                 rec['n_initial'] = len(opt.initial_graphs or [])
                 base_at = loop['at'] if loop and loop['via'] == 'objective_base' else None
-                if base_at is not None or (cfg['objective'].get('faults') or {}).get('only_size'):
+                fl = cfg['objective'].get('faults') or {}
+                rec['initial_ids'] = sorted({g.descriptive_id for g in (opt.initial_graphs or [])})
+                if base_at is not None or fl.get('only_size') or fl.get('only_initial'):
                     key = next(iter(objective.quality_metrics))
                     objective.quality_metrics[key] = Metric7(objective.quality_metrics[key], base_at, fired)
+                    objective.quality_metrics[key].ok_ids = set(rec['initial_ids'])
                 if loop and loop['via'] == 'mutation':
                     fm = FaultyMutation(loop['at'], fired)
                     # same list object is shared by GPAlgorithmParameters and the operator agent
@@ -537,6 +548,9 @@ class Builder:
         if bl:
             bad = sorted(set(bad) | set(n(u) for u, r in rec['individuals'].items()
                                         if bl[0] in r['labels'] and not r['surrogate']))
+        if (self.cfg['objective'].get('faults') or {}).get('only_initial'):
+            bad = sorted(set(bad) | set(n(u) for u, r in rec['individuals'].items()
+                                        if r['id'] not in rec.get('initial_ids', []) and not r['surrogate']))
         only = (self.cfg['objective'].get('faults') or {}).get('only_size')
         if only:
             bad = sorted(set(bad) | set(n(u) for u, r in rec['individuals'].items()
@@ -711,7 +725,7 @@ def gen_cases(ctx):
             elif f == 'class':
                 cfg['objective']['faults'] = {'by_class': [2, rng.randrange(2), kind]}
             else:
-                cfg['objective']['faults'] = {'only_size': [INITIAL_SIZES[ini][0], kind]}
+                cfg['objective']['faults'] = {'only_initial': kind}
             if j % 3 == 0:
                 cfg['diversity_check'] = 1
         cfg['scheme'] = sch
